@@ -56,7 +56,7 @@ static const char *probe_names[PR_MAX] = {
 	"thread_exit_nodeinit", "sig_cb", "sig_during_handler", "sig_handoff", "wait_cb",
 	"pid_reused", "kill_dead", "work_run", "work_done", "pool_put_busy", "idle_timeout",
 	"pump_bytes", "pump_full", "pump_eof", "inot_cb", "inot_multi", "popen_kill",
-	"reg_failed_event", "timer_many", "radix_cross", "sig_nowalk", "sig_foreign_thread", "reg_failed_ext",
+	"reg_failed_event", "timer_many", "radix_cross", "sig_nowalk", "sig_foreign_thread", "reg_failed_ext", "timer_parked",
 };
 
 extern int __llvm_profile_write_file(void) __attribute__((weak));
@@ -614,10 +614,25 @@ static int op_reg(struct rthr *th, int id, const struct pop *op)
 			ts = iv_now;
 			e = ts_ns(&ts) - op->b;
 			break;
+		case 4:
+			/* a parked timer: an expiry so far away that it never fires (beyond what fits in 64
+			 * bits of nanoseconds); the model keeps it as "never" */
+			e = PARKED_NS;
+			break;
 		}
 		if (e < 0)
 			e = 0;
-		ns_ts(e, &tm->expires);
+		if (e == PARKED_NS) {
+			iv_validate_now();
+			tm->expires.tv_nsec = (long)(op->b % 1000000000LL);
+			switch ((int)(op->b % 3)) {
+			case 0: tm->expires.tv_sec = iv_now.tv_sec + 400LL * 366 * 86400; break;	/* now + 400 years */
+			case 1: tm->expires.tv_sec = (time_t)INT64_MAX; break;
+			default: tm->expires.tv_sec = (time_t)(INT64_MAX / 1000000000LL) + 1 + (time_t)(op->b % 1000); break;	/* just past 2^63 ns */
+			}
+			PROBE[PR_TIMER_PARKED]++;
+		} else
+			ns_ts(e, &tm->expires);
 		tm->cookie = new_cookie(id);
 		tm->handler = h_timer;
 		iv_timer_register(tm);
@@ -1126,7 +1141,10 @@ static void obs_wait_enter(int tid, int prim, int64_t tmo, int nfds)
 		 * dispatcher, may still be queued after the last user object went away); blocking, or going
 		 * round repeatedly, is not */
 		if (++th->idle_polls >= 3)
+		{
 			viol("C07.no_return", "thread %d: loop polls for the %dth time in a row although nothing is registered", thr_idx(th), th->idle_polls);
+			ext2_blame_no_return(th);
+		}
 	} else {
 		th->idle_polls = 0;
 	}
@@ -1145,7 +1163,10 @@ static void obs_wait_block(int tid)
 	th->spin = 0;
 	PROBE[PR_BLOCK]++;
 	if (th->in_main && !th->quit_req && live_upper(th) == 0)
+	{
 		viol("C07.no_return", "thread %d: loop blocks in the kernel although nothing is registered", t);
+		ext2_blame_no_return(th);
+	}
 	for (i = 0; i < PL->nobj; i++) {
 		struct robj *o = &RO[i];
 		const struct pobj *po = &PL->obj[i];
@@ -1622,6 +1643,15 @@ static void on_thread_exit(int tid)
 	}
 }
 
+static int parked_timers(void)
+{
+	int i, n = 0;
+	for (i = 0; i < PL->nobj; i++)
+		if (PL->obj[i].kind == K_TIMER && RO[i].registered && RO[i].expiry == PARKED_NS)
+			n++;
+	return n;
+}
+
 static void check_obligations(int final)
 {
 	int i;
@@ -1643,7 +1673,7 @@ static void check_obligations(int final)
 				viol("C09.lost", "quiescence: raw event obj %d has a post that was never followed by a handler invocation; owner thread %d is blocked", i, po->owner);
 			break;
 		case K_TIMER:
-			if (th->in_main)
+			if (th->in_main && o->expiry != PARKED_NS)
 				viol("C04.oversleep", "quiescence: timer obj %d (expiry %" PRId64 ", now %" PRId64 ") is registered but its thread sleeps without any deadline", i, o->expiry, simk_now());
 			break;
 		case K_TASK:
@@ -1716,10 +1746,11 @@ void engine_run(const struct plan *p, int result_fd, int verbose)
 				all = 0;
 		if (all)
 			break;
-		if (budget) {
+		if (budget && !(parked_timers() > 0 && simk_next_deadline() - simk_now() >= 80000LL * 1000000000LL)) {
 			ext_budget("vtime");
 			finish(2);
 		}
+		/* (with a parked timer the loops sleep towards it, a day at a time at most: that is quiescence) */
 		/* the environment's last duty: consumers drain what is still readable; if that moved
 		 * anything, the system is not quiescent after all */
 		if (ext4_quiesce_progress())
@@ -1740,8 +1771,11 @@ void engine_run(const struct plan *p, int result_fd, int verbose)
 				hb_release(&th->td_raw);
 			} else if (th->td_requested) {
 				viol("C07.no_return", "thread %d: iv_main does not return after everything was unregistered by tear-down (%d live in the model)", i, live_objects(th));
+				ext2_blame_no_return(th);
 			} else if (th->quit_req || live_upper(th) == 0) {
 				viol("C07.no_return", "thread %d: blocked inside iv_main although %s", i, th->quit_req ? "iv_quit was called" : "nothing is registered");
+				if (!th->quit_req)
+					ext2_blame_no_return(th);
 			}
 		}
 		if (have_viol())
